@@ -14,6 +14,8 @@ A(i, o, f) == [ins |-> i, outs |-> o, fee |-> f, shift |-> 0, lock |-> 0, nrd |-
 \* 15    coinbase 0 -> 125 paying 1000 (far below the minimum 25000)
 \* 16 P  coinbase 2 -> 126 fee rate 10000       17 126 -> 127 fee rate 1000 (child)   18 127 -> 128 rate 4000 (grandchild)
 \* 19    coinbase 0 -> 129 fee rate 3000
+\* 20    coinbase 0 -> 102 : the SAME OUTPUT COMMITMENT as atom 2 (same value, same key), disjoint input and kernel
+\* 21    coinbase 3 -> 126 : the same output commitment as atom 16 (which has the dependants 17 and 18)
 AtomsFull ==
   <<A({1}, {100, 101}, 46000), A({2}, {102}, 50000), A({100}, {103}, 25000), A({101, 102}, {104}, 26000),
     A({1}, {105}, 75000), A({3}, {106}, 24999),
@@ -21,18 +23,20 @@ AtomsFull ==
     A({4}, {109}, 25000), [A({0}, {110}, 25000) EXCEPT !.lock = 7],
     A({3}, 111..121, 235000), A({103}, {122}, 100000),
     [A({0}, {123}, 25000) EXCEPT !.nrd = TRUE], A({5}, {124}, 30000), A({0}, {125}, 1000),
-    A({2}, {126}, 250000), A({126}, {127}, 25000), A({127}, {128}, 100000), A({0}, {129}, 75000)>>
+    A({2}, {126}, 250000), A({126}, {127}, 25000), A({127}, {128}, 100000), A({0}, {129}, 75000),
+    A({0}, {102}, 50000), A({3}, {126}, 250000)>>
 \* {2, 6}, {16, 7}, {2, 15}: an UNDER-paying atom aggregated with a well-paying one; the aggregate as a whole pays enough
 \* (74999 >= 50000; (250000 + 37500) >> 1 >= 50000; 51000 >= 50000), the remainder left after deaggregating the pooled
 \* partner does not
-SubsFull == {{a} : a \in 1..19} \cup {{1, 2}, {1, 3}, {3, 12}, {2, 8}, {2, 6}, {16, 7}, {2, 15}}
+SubsFull == {{a} : a \in 1..21} \cup {{1, 2}, {1, 3}, {3, 12}, {2, 8}, {2, 6}, {16, 7}, {2, 15}}
 
 \* small universe for exhaustive checking: parent with two outputs, second parent, child, two-parent child,
 \* conflicting spend, under-payer, immature coinbase spend, locked kernel
 AtomsSmall ==
   <<A({1}, {100, 101}, 46000), A({2}, {102}, 50000), A({100}, {103}, 25000), A({101, 102}, {104}, 26000),
-    A({1}, {105}, 75000), A({3}, {106}, 1000), A({4}, {109}, 25000), [A({0}, {110}, 25000) EXCEPT !.lock = 7]>>
-SubsSmall == {{a} : a \in 1..8} \cup {{1, 2}, {1, 3}, {2, 6}}     \* {2, 6}: over-payer + under-payer, 51000 >= 50000
+    A({1}, {105}, 75000), A({3}, {106}, 1000), A({4}, {109}, 25000), [A({0}, {110}, 25000) EXCEPT !.lock = 7],
+    A({0}, {102}, 50000)>>                 \* 9: the same output commitment as atom 2, disjoint input and kernel
+SubsSmall == {{a} : a \in 1..9} \cup {{1, 2}, {1, 3}, {2, 6}}     \* {2, 6}: over-payer + under-payer, 51000 >= 50000
 
 CONSTANTS MaxBlockTxs, MaxReorgDepth, SimProfile
 
@@ -85,8 +89,11 @@ SimSubmit ==
   \E good \in {{t \in c4 : Fluff(t).res # "reject"}} :
   \* aggregated forms of something that is in the public pool right now (the deaggregation path)
   \E deagg \in {{t \in Subs : Cardinality(t) > 1 /\ t \notin SeqToSet(txpool) /\ \E x \in SeqToSet(txpool) : x \subseteq t}} :
+  \* transactions creating an output commitment that a pooled (public or stem) tx with disjoint kernels also creates
+  \E coll \in {{t \in Subs : \E x \in SeqToSet(txpool \o stempool) : x \cap t = {} /\ Created(x) \cap Created(t) # {}}} :
   \E t \in {IF r <= 6 /\ good # {} THEN RandomElement(good)
-             ELSE IF r = 10 /\ deagg # {} THEN RandomElement(deagg) ELSE RandomElement(c4)} :
+             ELSE IF r = 10 /\ deagg # {} THEN RandomElement(deagg)
+             ELSE IF r = 9 /\ coll # {} THEN RandomElement(coll) ELSE RandomElement(c4)} :
   \E st \in {RandomElement(1..10)} :
      /\ Submit(t, st <= 3, st # 1)
      /\ (last'.evict /\ last'.allowed # {}) => last'.victim = Guess(last'.pre, last'.allowed)
@@ -143,9 +150,16 @@ Scripts == <<
   \* 8: the minimum fee is demanded of the REMAINDER that is admitted after deaggregation: an under-paying tx (6: short
   \*    by 1; 7: short once shifted; 15: far below) submitted aggregated with a pooled well-paying tx (2, 16) is refused
   \*    although the aggregate as a whole pays enough; as stem tx (no deaggregation) it conflicts with the pooled part
-  <<Sub({2}), Sub({6}), Sub({2, 6}), Sub({16}), Sub({16, 7}), Sub({2, 15}), StemSub({2, 6}), Sub({15})>>
+  <<Sub({2}), Sub({6}), Sub({2, 6}), Sub({16}), Sub({16, 7}), Sub({2, 15}), StemSub({2, 6}), Sub({15})>>,
+  \* 9: output-commitment collisions with disjoint inputs and kernels, stem first: stem tx 2 must leave the stempool when
+  \*    fluff tx 20 (same output 102) enters the public pool; 2 is then refused both ways; stem chain 16 -> 17: fluff 21
+  \*    (same output 126 as 16) throws 16 out while 17 now spends the 126 of 21; block {20}
+  <<StemSub({2}), Sub({20}), Sub({2}), StemSub({2}), StemSub({16}), StemSub({17}), Sub({21}), Blk({20}), StemSub({2})>>,
+  \* 10: the same collisions, fluff first: stem 20 refused on top of public 2, and as fluff; stem 21, then fluff 16
+  \*    (same output 126) throws it out; a BLOCK holding 21 (no kernel, no input in common with the pool) throws out 16
+  <<Sub({2}), StemSub({20}), Sub({20}), StemSub({21}), Sub({16}), Blk({21}), Sub({17})>>
 >> \o (IF ShortReorg THEN <<
-  \* 9: a heavier but shorter fork lowers the height: the spend of coinbase 5 admitted at maturity is immature again
+  \* 11: a heavier but shorter fork lowers the height: the spend of coinbase 5 admitted at maturity is immature again
   <<Blk({}), Blk({}), Sub({14}), Sub({10}), Rg(2, <<{}>>), Sub({19}), Blk({}), Sub({14})>> >> ELSE <<>>)
 ScriptInit == Init /\ hist = <<>> /\ script \in 1..Len(Scripts)
 ScriptNext ==
@@ -171,4 +185,5 @@ Emit == Done => PrintT(<<"POOLBEH", ToJson(Behaviour)>>)
 EmitBad(inv, tag) == inv \/ PrintT(<<tag, ToJson(Behaviour)>>) = FALSE
 EmitNoUnderpaid == EmitBad(NoUnderpaid, "POOLCEX")
 EmitPoolJointlyValid == EmitBad(PoolJointlyValid, "POOLCEX")
+EmitStemJointlyValid == EmitBad(StemJointlyValid, "POOLCEX")
 =========================================================================
